@@ -116,6 +116,16 @@ evaluated per attribute; a key that is EXTENDED before the dispatch (`k += '_'`,
 `opt_in=True` becomes an `_in_` filter on `opt`); a walker that unlinks the task from `task.parent` instead of searching below
 the current node is refuted by name (C18-r102), and "does not descend" is no longer said about a removal of another design.
 
+Round 11: the iterable of the result comprehension may be a chain of pure filtering stages (`candidates = iter(self)` / `(t for t
+in self if key(t))` chosen by `if key is None`, then `[t for t in candidates if search(t, **kwargs)]`): every stage is folded into
+the filters (`True if key is None else key(t)`), provided both sides of the choice run over the whole list in list order; a
+comparison of two truth values (`(val is None) != bool(v)`, `A == B`, `A is not B`, `A ^ B`) is decided as exclusive-or of its
+sides, so a decision that depends on the truthiness of the filter value is refuted through the truth table (C18-r112:
+`x_is_none_=False` inverted the test); membership decided by hashing - `val in set(v)` / `frozenset(v)` in search, or a filter
+value replaced by a set in `__call__` before the filters run (`kwargs[k] = frozenset(v)`, a rebuilt `kwargs = {k: set(v) ..}`) -
+is refuted (C18-r111: an unhashable attribute value raises TypeError instead of not being a member); any other rewrite of the
+keyword dict in `__call__` (`kwargs[k] = ..`, `del kwargs[k]`, `.pop/.update/.setdefault/.clear`, rebinding) is UNDECIDED.
+
 Shapes followed since round 3: the attribute resolver is today's `__get_task_attribute` or - when that anchor is gone - the
 one package function `search` calls as `<fn>(<task>, <name>)` (moved to module level, to another class, nested in `__call__`);
 a filter of the result comprehension / selection loop that calls a predicate nested in `__call__` (or a local bound to a
